@@ -192,7 +192,7 @@ def createMsg (s : App) (sg : Signer) (c : CreateArgs) : Except Err App :=
 /-- x/staking `Params.Validate` on the six fields -/
 def paramsValid (p : ParamArgs) : Bool :=
   decide (p.unbond > 0) && decide (p.maxVals > 0) && decide (p.maxEntries > 0) && decide (p.hist ≥ 0) &&
-  decide (p.denom ≠ 2) && decide (p.minComm ≥ 0) && decide (p.minComm ≤ E18)
+  decide (p.denom < 2) && decide (p.minComm ≥ 0) && decide (p.minComm ≤ E18)
 
 def paramsMsg (s : App) (sg : Signer) (p : ParamArgs) : Except Err App :=
   if !isAdmin sg then .error Err.notAnAuthority
